@@ -65,6 +65,8 @@ pub enum Dest {
     TrustedTrailingSpace,
     /// a trusted name that contains upper-case letters: it must be announced exactly as it was trusted and requested
     TrustedMixedCase,
+    /// the service's own chain name (never trusted as a destination): a request like any other toward an untrusted chain
+    OwnChainName,
 }
 
 #[derive(Clone, Copy, Debug, Serialize, Deserialize, PartialEq, Eq)]
@@ -152,7 +154,7 @@ impl Property for C18 {
         (
             tok(),
             prop_oneof![6 => Just(Who::OriginalDeployer), 2 => Just(Who::OtherReusingSalt), 1 => Just(Who::TheServiceItself)],
-            prop_oneof![6 => Just(Dest::Trusted), 1 => Just(Dest::NeverTrusted), 1 => Just(Dest::Removed), 1 => Just(Dest::HubItself), 1 => Just(Dest::Empty), 1 => Just(Dest::TrustedOtherCase), 1 => Just(Dest::TrustedTrailingSpace), 2 => Just(Dest::TrustedMixedCase)],
+            prop_oneof![6 => Just(Dest::Trusted), 1 => Just(Dest::NeverTrusted), 1 => Just(Dest::Removed), 1 => Just(Dest::HubItself), 1 => Just(Dest::Empty), 1 => Just(Dest::TrustedOtherCase), 1 => Just(Dest::TrustedTrailingSpace), 2 => Just(Dest::TrustedMixedCase), 1 => Just(Dest::OwnChainName)],
             prop_oneof![1 => Just(GasC::Zero), 1 => Just(GasC::Negative), 5 => (1u16..500).prop_map(GasC::Affordable), 1 => Just(GasC::ExactBalance), 1 => Just(GasC::BalancePlusOne)],
             prop_oneof![6 => Just(true), 1 => Just(false)],
             prop_oneof![2 => Just(false), 1 => Just(true)],
@@ -317,6 +319,7 @@ impl Property for C18 {
             Dest::TrustedOtherCase => "Ethereum",
             Dest::TrustedMixedCase => "Polygon-zkEVM",
             Dest::TrustedTrailingSpace => "ethereum ",
+            Dest::OwnChainName => "stellar",
         };
         let dest_trusted = matches!(case.dest, Dest::Trusted | Dest::TrustedMixedCase);
         let gas_amount: i128 = match case.gas {
